@@ -122,12 +122,23 @@ func vWCFlags(name string) int {
 	return f
 }
 
-func vPlainDecorator(name string) decor.Decorator {
+// vDecorCalls counts the calls of every decorator of the row harness: a decorator has to be called in every
+// draw, shown or not (a width-synchronised one that is skipped stalls its whole column, see decor.Decorator).
+var vDecorCalls [4]int
+
+func vPlainDecorator(name string) decor.Decorator { return vCountedDecorator(name, -1) }
+
+func vCountedDecorator(name string, slot int) decor.Decorator {
 	txt := vText(name + ".text")
 	vAssume(vTextWidth(txt) <= 30)
 	w := vInt(name + ".W")
 	vAssume(w >= 0 && w <= 30)
-	return decor.Any(func(decor.Statistics) string { return txt }, decor.WC{W: w, C: vWCFlags(name + ".C")})
+	return decor.Any(func(decor.Statistics) string {
+		if slot >= 0 {
+			vDecorCalls[slot]++
+		}
+		return txt
+	}, decor.WC{W: w, C: vWCFlags(name + ".C")})
 }
 
 func vhC07Draw() {
@@ -135,17 +146,23 @@ func vhC07Draw() {
 	vAssume(tw >= 0 && tw <= 60)
 	ps := pState{reqWidth: vInt("reqWidth")}
 	var pre, app []decor.Decorator
+	vDecorCalls = [4]int{}
+	var want [4]int
 	if vBool("pre0") {
-		pre = append(pre, vPlainDecorator("p0"))
+		pre = append(pre, vCountedDecorator("p0", 0))
+		want[0] = 1
 	}
 	if vBool("pre1") {
-		pre = append(pre, vPlainDecorator("p1"))
+		pre = append(pre, vCountedDecorator("p1", 1))
+		want[1] = 1
 	}
 	if vBool("app0") {
-		app = append(app, vPlainDecorator("a0"))
+		app = append(app, vCountedDecorator("a0", 2))
+		want[2] = 1
 	}
 	if vBool("app1") {
-		app = append(app, vPlainDecorator("a1"))
+		app = append(app, vCountedDecorator("a1", 3))
+		want[3] = 1
 	}
 	opts := []BarOption{PrependDecorators(pre...), AppendDecorators(app...)}
 	if vBool("trim") {
@@ -161,6 +178,7 @@ func vhC07Draw() {
 	s := row.String()
 	vAssert(vTextWidth(s) <= tw, "C07.draw.row-fits-terminal")
 	vAssert(vTextNL(s) == 1, "C07.draw.one-line")
+	vAssert(vDecorCalls == want, "C07.draw.every-decorator-is-called-exactly-once-whatever-fits")
 	vCover("C07.draw.reach")
 }
 
